@@ -51,7 +51,7 @@ theorem CS.cap (hC : Lawful C VC WC) {c : Nat} {e : σ} {le : List Nat} (h : CS 
 theorem CS.sd (hC : Lawful C VC WC) {c : Nat} {e : σ} {le : List Nat} (h : CS VC WC c e le)
     (hc : c ≤ TERMINATED) : SDPost VC WC le c True (C.seekDanger c e) := by
   rcases h with ⟨h1, h2⟩ | ⟨t0, h0, _, hW⟩
-  · exact (hC.sdV h1 hc).weaken (fun _ => by rw [hC.doc_eq h1]; exact h2)
+  · exact hC.sdV h1 hc
   · exact hC.sdW hW h0 hc
 
 /-- what one `seek_danger(c)` does to a child list, seen from documents `≥ c` -/
